@@ -83,7 +83,8 @@ EXTRA4 = {
  "C16": "C16.9 ModifySocket keeps the id a hook assigned, so a rejected connection is removed from the index under the right key (= C07.13)",
  "C18": "C18.11 the disconnect hook (slot release) comes after the handler waits and socket.Close in closeLocked (= C08.1); C18.12 nothing reachable from qpsLimiter.update writes the token count",
  "C12": "C12.11 an error reply over HTTP is packed with the announced filter (= C04.14); C12.12 the gzip filter's inflate bound follows the configured limit on every path of its setter (= C06.11)",
- "C13": "C13.12 a redialed session is re-indexed on every path (= C07.14); C13.13 a rejected redial attempt restores Redialing (= C02.14)",
+ "C13": "C13.12 a redialed session is re-indexed on every path (= C07.14); C13.13 a rejected redial attempt restores Redialing (= C02.14); C13.14 ModifySocket installs and records the same protocol list (what the websocket redial hook re-installs); C13.9 now also demands that writers can redial from both PassiveClosed and RedialFailed",
+ "C19": "C19.9 the query parser overwrites both fields of a recycled slot (= C20.6; the proxy puts X-Real-IP behind the caller's pairs); C19.10 the forwarding session recovers from RedialFailed (= C13.9)",
  "C20": "C20.8 a buffer made on a pool miss is empty (zero-length B, nothing but Reset called on it)",
 }
 for _p, _t in EXTRA4.items():
